@@ -2,7 +2,7 @@ CONSTANTS
   NUser = 2
   Level = 2
   MaxSteps = 0
-  Deviations = {"DistGenericArgsOnly", "DistUndefinedForNoneOrTuple", "PrimitiveRequestEmpty"}
+  Deviations = {"DistCovariantArgs", "DistUndefinedForAnyBelowNoneOrTuple", "PrimitiveRequestEmpty"}
   Prov = "G"
   FixedRoots = TRUE
 SPECIFICATION Spec
